@@ -122,6 +122,10 @@ func runSchemaCodec(payload []*Sx) *Sx {
 	if err != nil {
 		return L(A("parse-error"), AS(err.Error()))
 	}
+	return schemaCodecChecks(s)
+}
+
+func schemaCodecChecks(s *schema.Schema) *Sx {
 	r0, err0 := resolveOf(s)
 	text, err := s.MarshalCedar()
 	if err != nil {
